@@ -8,7 +8,7 @@ from pbt import gens, oracles as o
 from pbt.core import Outcome, Raised, SubCheck, bad, discard, import_dsw, lib_call
 
 PROPERTY = "C17"
-RULE = ("Arc subsets and generated graphs of order 1..4 drawn by Hypothesis. The oracle decides the precondition: own "
+RULE = ("Arc subsets and generated graphs of order 1..4 drawn by Hypothesis; admissible order-1/2 graphs are also lifted to their higher-block presentation at order 5..7 (same non-zero spectrum, 1,024..16,384 vertices). The oracle decides the precondition: own "
         "Tarjan SCCs, exactly one cyclic component, aperiodic (gcd of cycle lengths by BFS levels), spectral gap "
         "|lambda2| <= 0.85 lambda1 by numpy.linalg.eigvals on the component with numpy's lambda1 within 1e-6 of the "
         "certified radius (otherwise excluded and counted). Reference value: Collatz-Wielandt bounds on A+I until "
@@ -55,7 +55,8 @@ def graph_cases(draw, tier):
         if source == "dense":
             rng = random.Random(draw(st.integers(0, 2 ** 32 - 1)))
             graph = dict(graph, rows=[r | (1 << rng.randrange(4)) | (1 << rng.randrange(4)) for r in graph["rows"]])
-    return {"graph": graph, "repeats": draw(st.integers(2, 10)), "np_seed": draw(st.integers(0, 2 ** 32 - 1))}
+    return {"graph": graph, "repeats": draw(st.integers(2, 10)), "np_seed": draw(st.integers(0, 2 ** 32 - 1)),
+            "verbose": draw(st.sampled_from([False, False, False, True]))}
 
 
 def evaluate_graph(case):
@@ -70,7 +71,8 @@ def evaluate_graph(case):
     results = {}
     numpy.random.seed(case["np_seed"])
     results["random"] = lib_call(dsw.approximate_capacity, _twice=False, accessor=acc, repeats=case["repeats"])
-    results["single"] = lib_call(dsw.approximate_capacity, accessor=acc, repeats=1, process=True)
+    results["single"] = lib_call(dsw.approximate_capacity, accessor=acc, repeats=1, process=True,
+                                 verbose=bool(case.get("verbose")))
     if not numpy.array_equal(acc, snapshot):
         return bad("approximate_capacity modified the accessor", labels)
     for name, value in results.items():
@@ -103,6 +105,63 @@ def evaluate_graph(case):
     degrees = {sum(1 for j in o.live(rows, v) if rows[o.succ_table(k)[v][j]]) for v in range(len(rows)) if rows[v]}
     regular = len(degrees) == 1
     return Outcome(True, info["admissible"] and not regular and steps > 5, labels)
+
+
+def lift(rows, b, k):
+    """Higher-block presentation: the order-k graph whose vertices are the walks of length k-b of the order-b graph
+    (as k-mers) and whose arcs extend them.  Its non-zero spectrum equals that of the base graph."""
+    table_b = o.succ_table(b)
+    out = [0] * (4 ** k)
+    for v in range(4 ** k):
+        s = o.kmer(v, k)
+        state, ok = o.index(s[:b]), True
+        for c in s[b:]:
+            j = o.NUC.index(c)
+            if not (rows[state] >> j) & 1:
+                ok = False
+                break
+            state = table_b[state][j]
+        if ok:
+            out[v] = rows[state]
+    # arcs into k-mers that are not walks must not exist: a target is a walk whenever the source is one
+    return out
+
+
+@st.composite
+def lifted_cases(draw, tier):
+    base = draw(gens.arc_subsets(1, 2, {1: 1, 2: 3}))
+    rng = random.Random(draw(st.integers(0, 2 ** 32 - 1)))
+    base = dict(base, rows=[r | (1 << rng.randrange(4)) for r in base["rows"]])
+    return {"base": base, "k": draw(st.sampled_from([5, 5, 6, 6, 7] if tier != "quick" else [5, 5, 6])),
+            "repeats": draw(st.integers(2, 4)), "np_seed": draw(st.integers(0, 2 ** 32 - 1))}
+
+
+def evaluate_lifted(case):
+    import numpy
+    dsw = import_dsw()
+    base, k = case["base"], case["k"]
+    info = analyse(base["rows"], base["k"])
+    labels = ["k=%d" % k, "base_k=%d" % base["k"], info["reason"]]
+    if not info["admissible"]:
+        return discard("base_graph_" + info["reason"], labels)
+    rows = lift(base["rows"], base["k"], k)
+    acc = gens.accessor_of({"k": k, "rows": rows})
+    target_lo, target_hi = math.log2(info["lo"]), math.log2(info["hi"])
+    numpy.random.seed(case["np_seed"])
+    values = {"random(repeats=%d)" % case["repeats"]: lib_call(dsw.approximate_capacity, _twice=False, accessor=acc,
+                                                               repeats=case["repeats"]),
+              "single": lib_call(dsw.approximate_capacity, accessor=acc, repeats=1)}
+    live = sum(1 for r in rows if r)
+    for name, value in values.items():
+        if isinstance(value, Raised):
+            return bad("approximate_capacity (%s start) raised %r at order %d" % (name, value, k), labels)
+        if float(value) < target_lo - 1e-4 or float(value) > target_hi + 1e-4:
+            return bad("capacity %.9f (%s start) of the order-%d presentation (%d live vertices) of an order-%d graph "
+                       "whose log2 spectral radius is in [%.9f, %.9f] (base rows %r)"
+                       % (float(value), name, k, live, base["k"], target_lo, target_hi, base["rows"]), labels)
+    if live > 256:
+        labels.append("live_vertices>256")
+    return Outcome(True, live > 256, labels)
 
 
 @st.composite
@@ -171,6 +230,8 @@ SUBCHECKS = [
              floors={"admissible": 250, "steps>5": 120, "arc_less": 3}, rule=RULE, timeout=120.0),
     SubCheck("regular_graphs", evaluate_regular, strategy=regular_cases, examples=(600, 6000), shards=(8, 16),
              floors={"with_dead_arcs": 100, "d=3": 50, "d=2": 50}, rule=RULE),
+    SubCheck("lifted_large_orders", evaluate_lifted, strategy=lifted_cases, examples=(120, 1500), shards=(16, 16),
+             floors={"live_vertices>256": 20}, rule=RULE, timeout=300.0),
 ]
 
 TECHNIQUE = ("property-based testing (Hypothesis) against certified Collatz-Wielandt bounds computed per strongly "
